@@ -69,7 +69,7 @@ def leaf(draw, time_pool=TIMES, allow_maps=True, allow_noop=True):
         if draw(st.integers(0, 29)) == 0:
             path.append(["key", "b"])  # two-key path: always false
     if allow_maps and draw(st.integers(0, 6)) == 0:
-        names = {"time": ["year", "ident"], "meas": ["first_char", "upper", "len", "ident"], "tag": ["first_char", "upper", "ident", "len"], "field": ["double", "reciprocal", "neg", "ident"]}[attr]
+        names = {"time": ["year", "ident", "plus_day", "plus_day"], "meas": ["first_char", "upper", "len", "ident"], "tag": ["first_char", "upper", "ident", "len"], "field": ["double", "reciprocal", "neg", "ident"]}[attr]
         path.append(["map", draw(st.sampled_from(names))])
     mapped = bool(path) and path[-1][0] == "map"
     if mapped and path[-1][1] in ("year", "len"):
